@@ -27,7 +27,7 @@ define("KF-C04-1", "C04", "expr",
        "FCB, FDB and RMB do not evaluate symbols or expressions (they are rejected with a diagnostic)",
        lambda c, s: pos(c) in ("fcb", "fdb", "rmb"))
 define("KF-C04-2", "C04", "expr",
-       "a symbol defined by EQU <expression> or EQU <symbol> has no usable value (rejected; 0 when the expression involves a label; /0 unnoticed)",
+       "a symbol defined by EQU <expression> has no usable value (rejected; 0 when the expression involves a label; /0 unnoticed)",
        lambda c, s: pos(c) == "equ")
 define("KF-C04-6", "C04", "expr",
        "%binary and 'char literals cannot be terms of a two-term expression (the expression is rejected as an invalid value)",
